@@ -19,7 +19,7 @@ static const char *KN[] = {"NTT", "INTT", "extendPol", "INTT(NTT(x))", "NTT(INTT
 static const int SIZE0 = 99; // ln value meaning "size 0"
 
 struct Cfg {
-    int kind, lm, ln, le; uint64_t ncols, nphase, nblock; int dst, buf, nth; uint64_t dmode, dseed, nphase2, nblock2, warm;
+    int kind, lm, ln, le; uint64_t ncols, nphase, nblock; int dst, buf, nth; uint64_t dmode, dseed, nphase2, nblock2, warm, lay;
     uint64_t n() const { return ln == SIZE0 ? 0 : 1ull << ln; }
     uint64_t next() const { return 1ull << le; }
 };
@@ -30,6 +30,7 @@ static Cfg cfg_of(const std::vector<uint64_t> &v, size_t o = 0)
     c.dst = (int)v[o + 7]; c.buf = (int)v[o + 8]; c.nth = (int)v[o + 9]; c.dmode = v[o + 10]; c.dseed = v[o + 11];
     c.nphase2 = v.size() > o + 12 ? v[o + 12] : c.nphase; c.nblock2 = v.size() > o + 13 ? v[o + 13] : c.nblock;
     c.warm = v.size() > o + 14 ? v[o + 14] : 0;
+    c.lay = v.size() > o + 15 ? v[o + 15] : 0; // buffer layout (bits 0-2) and calling context (bits 3-4)
     return c;
 }
 static std::string cfg_str(const Cfg &c)
@@ -38,13 +39,16 @@ static std::string cfg_str(const Cfg &c)
     if (c.kind == K_EXT) s += " N_ext=2^" + std::to_string(c.le);
     s += " ncols=" + std::to_string(c.ncols) + " nphase=" + std::to_string(c.nphase) + " nblock=" + std::to_string(c.nblock) +
          " dst=" + (c.dst == 0 ? "src" : c.dst == 1 ? "other" : "NULL") + " buffer=" + (c.buf ? "caller" : "NULL") + " nThreads=" + std::to_string(c.nth) +
-         " data=" + (c.dmode == 1 ? "basis" : "mixed") + ":" + hx(c.dseed);
+         " data=" + (c.dmode == 1 ? "basis" : c.dmode >= 2 ? "special" + std::to_string(c.dmode) : "mixed") + ":" + hx(c.dseed);
     if (c.kind >= K_RT_FI) s += " nphase2=" + std::to_string(c.nphase2) + " nblock2=" + std::to_string(c.nblock2);
     if (c.warm) s += " warm-up=" + hx(c.warm);
+    if ((c.lay & 7) >= 2) s += " layout=one-arena/order" + std::to_string((c.lay & 7) - 2);
+    if (((c.lay >> 3) & 3) == 1) s += " called-inside-a-parallel-region";
     return s;
 }
 static std::string desc(const Case &c) { return c.prop + " " + cfg_str(cfg_of(c.v)); }
 
+static uint64_t root_of(int lg) { return Goldilocks::toU64(Goldilocks::w(lg)); }
 // input cell (row j, column col): pure function of the case
 static uint64_t cell(const Cfg &c, uint64_t j, uint64_t col, uint64_t n)
 {
@@ -55,6 +59,19 @@ static uint64_t cell(const Cfg &c, uint64_t j, uint64_t col, uint64_t n)
         static const uint64_t vals[] = {1, 2, PR - 1, PR + 1, 0xFFFFFFFFFFFFFFFFull, 0x123456789ABCDEFull, 0xFFFFFFFFull, 7};
         return idx == pos ? vals[c.dseed & 7] : 0;
     }
+    uint64_t dm = c.dmode;
+    if (dm == 6) dm = col == 0 ? 2 + (c.dseed >> 44) % 5 : 0;           // a special first column next to generic columns
+    else if (dm == 7) dm = ((col + (c.dseed >> 44)) % 3 == 0) ? 0 : 2 + (col + (c.dseed >> 46)) % 5; // every column of another kind
+    if (dm >= 2) { // special inputs for which a fast path is tempting: all zero, constant, powers of the root (a single spectral line), all p-1
+        uint64_t v = c.dseed | 1;
+        switch (dm) {
+        case 2: return (c.dseed & 2) ? PR : 0;
+        case 6: return ref::add(v, ref::mul(c.dseed >> 3 | 1, ref::pw(root_of(ref::lg(n ? n : 1)), j))); // values of a degree-1 polynomial on the domain
+        case 3: return (c.dseed & 1) ? PR + (c.dseed >> 40) % 5 : v;                          // constant matrix (sometimes a non-canonical zero/small constant)
+        case 4: return ref::pw(root_of(ref::lg(n ? n : 1)), (j * (1 + (c.dseed >> 8) % (n ? n : 1))) % (n ? n : 1)); // w^(j*t): transform is n at one index, 0 elsewhere
+        default: return PR - 1;
+        }
+    }
     uint64_t h = pbt::mix(c.dseed, idx), h2 = pbt::mix(h, 0x51);
     switch (h >> 61) {
     case 0: case 1: case 2: case 3: return h2;
@@ -64,7 +81,6 @@ static uint64_t cell(const Cfg &c, uint64_t j, uint64_t col, uint64_t n)
     default: return (h2 & 0xFFFFFFFFull) << 32;
     }
 }
-static uint64_t root_of(int lg) { return Goldilocks::toU64(Goldilocks::w(lg)); }
 
 static E *xalloc(uint64_t nelem) { return (E *)malloc(nelem * sizeof(E)); } // exact size (malloc(0) is a valid zero-size block)
 
@@ -103,14 +119,28 @@ static CallResult run_call(NTT_Goldilocks &g, const Cfg &c, bool check_oracle)
     bool inplace = (c.dst != 1);
     uint64_t rows_src = (c.kind == K_EXT && inplace) ? rows_out : n;
     std::vector<std::vector<uint64_t>> in(ncols, std::vector<uint64_t>(n));
-    E *src = xalloc(rows_src * ncols);
+    // buffer layout: separate heap blocks, or ONE arena in which source, destination and scratch touch each other in some order (sentinel words at both ends)
+    const int layout = (int)(c.lay & 7);
+    const uint64_t PADW = 64, sz_src = rows_src * ncols, sz_other = c.dst == 1 ? rows_out * ncols : 0, sz_buf = c.buf ? rows_out * ncols : 0;
+    E *arena = NULL, *a_src = NULL, *a_other = NULL, *a_buf = NULL; uint64_t arena_words = 0;
+    if (layout >= 2) {
+        static const int ORD[6][3] = {{0, 1, 2}, {0, 2, 1}, {1, 0, 2}, {1, 2, 0}, {2, 0, 1}, {2, 1, 0}}; // 0 src, 1 other, 2 scratch
+        arena_words = sz_src + sz_other + sz_buf + 2 * PADW; arena = xalloc(arena_words);
+        for (uint64_t i = 0; i < arena_words; i++) arena[i].fe = 0xA5E7A5E700000000ull + i;
+        E *cur = arena + PADW;
+        for (int q = 0; q < 3; q++) { int w = ORD[layout - 2][q]; if (w == 0) { a_src = cur; cur += sz_src; } else if (w == 1) { a_other = cur; cur += sz_other; } else { a_buf = cur; cur += sz_buf; } }
+    }
+    E *src = arena ? a_src : xalloc(rows_src * ncols);
     for (uint64_t j = 0; j < n; j++) for (uint64_t col = 0; col < ncols; col++) { uint64_t x = cell(c, j, col, n); in[col][j] = x; src[j * ncols + col].fe = x; }
     for (uint64_t i = n * ncols; i < rows_src * ncols; i++) src[i].fe = 0xDEADBEEF00000000ull + i; // junk beyond the N live rows of an in-place extendPol buffer
     E *other = NULL;
-    if (c.dst == 1) { other = xalloc(rows_out * ncols); for (uint64_t i = 0; i < rows_out * ncols; i++) other[i].fe = 0xC5C5C5C5C5C5C5C5ull; }
-    E *buf = c.buf ? xalloc(rows_out * ncols) : NULL;
+    if (c.dst == 1) { other = arena ? a_other : xalloc(rows_out * ncols); for (uint64_t i = 0; i < rows_out * ncols; i++) other[i].fe = 0xC5C5C5C5C5C5C5C5ull; }
+    E *buf = c.buf ? (arena ? a_buf : xalloc(rows_out * ncols)) : NULL;
+    if (buf && arena) for (uint64_t i = 0; i < sz_buf; i++) buf[i].fe = 0xB0FFB0FF00000000ull + i;
     E *dstarg = c.dst == 0 ? src : c.dst == 1 ? other : NULL;
     E *out = c.dst == 1 ? other : src;
+    const bool nested = ((c.lay >> 3) & 3) == 1; // the call is made by one member of an enclosing parallel region (the library's own regions then get one thread)
+    auto docall = [&]() {
     switch (c.kind) {
     case K_NTT: g.NTT(dstarg, src, n, ncols, buf, c.nphase, c.nblock); break;
     case K_INTT:
@@ -121,6 +151,11 @@ static CallResult run_call(NTT_Goldilocks &g, const Cfg &c, bool check_oracle)
     case K_RT_FI: g.NTT(dstarg, src, n, ncols, buf, c.nphase, c.nblock); g.INTT(out, out, n, ncols, buf, c.nphase2, c.nblock2); break;
     case K_RT_IF: g.INTT(dstarg, src, n, ncols, buf, c.nphase, c.nblock); g.NTT(out, out, n, ncols, buf, c.nphase2, c.nblock2); break;
     }
+    };
+    if (nested) {
+#pragma omp parallel num_threads(2)
+        { if (omp_get_thread_num() == 0) docall(); }
+    } else docall();
     R.raw.resize(rows_out * ncols);
     for (uint64_t i = 0; i < rows_out * ncols; i++) R.raw[i] = out[i].fe;
     if (check_oracle) {
@@ -139,7 +174,10 @@ static CallResult run_call(NTT_Goldilocks &g, const Cfg &c, bool check_oracle)
             for (uint64_t j = 0; j < n && R.ok; j++) for (uint64_t col = 0; col < ncols; col++)
                 if (src[j * ncols + col].fe != in[col][j]) { R.ok = false; R.why = "source modified although destination is a different buffer (row " + std::to_string(j) + ")"; break; }
     }
-    free(src); if (other) free(other); if (buf) free(buf);
+    if (arena) {
+        if (R.ok && check_oracle) for (uint64_t i = 0; i < arena_words; i++) { bool pad = i < PADW || i >= arena_words - PADW; if (pad && arena[i].fe != 0xA5E7A5E700000000ull + i) { R.ok = false; R.why = "wrote outside the buffers it was given (word " + std::to_string((long long)i - (long long)PADW) + " relative to the start of the arena)"; break; } }
+        free(arena);
+    } else { free(src); if (other) free(other); if (buf) free(buf); }
     return R;
 }
 
@@ -164,7 +202,9 @@ static void classify(const Cfg &c, Ctx &ctx)
         if (eff_phase(c.nphase, c.le) % 2 == 0) { ctx.cls("ext:even-effective-phase-count"); nt = true; }
         if (c.dst == 0) ctx.cls("ext:in-place"); else ctx.cls("ext:distinct-output");
     }
-    if (c.dmode == 1) ctx.cls("data:basis"); else ctx.cls("data:mixed-representations");
+    if ((c.lay & 7) >= 2) { ctx.cls("cfg:buffers-adjacent-in-one-arena"); nt = true; }
+    if (((c.lay >> 3) & 3) == 1) { ctx.cls("cfg:called-inside-a-parallel-region"); nt = true; }
+    if (c.dmode == 1) ctx.cls("data:basis"); else if (c.dmode >= 6) ctx.cls("data:special-columns-next-to-generic-columns"); else if (c.dmode >= 2) ctx.cls("data:special(zero/constant/spectral-line/all-p-1)"); else ctx.cls("data:mixed-representations");
     if (c.ln != SIZE0 && c.ln > 6) ctx.cls("size:n>64(fft-oracle)"); else ctx.cls("size:n<=64(naive-dft-oracle)");
     if (c.ln != SIZE0 && c.ln >= 16) ctx.cls("size:n>=2^16");
     if (c.kind == K_INTT) ctx.cls(((c.dseed >> 7) & 1) ? "intt:via-INTT()" : "intt:via-NTT(inverse=true)");
@@ -263,12 +303,13 @@ static rc::Gen<std::vector<uint64_t>> gen_call(int kindsel /* -1 any of 0..4, el
         if (kind == K_EXT && dst == 2) dst = 0; // extendPol has no null-output contract
         int buf = *g::irange(0, 1);
         int nth = *rc::gen::weightedOneOf<int>({{2, rc::gen::just(0)}, {4, rc::gen::elementOf(std::vector<int>(THREADS, THREADS + 5))}, {1, g::irange(1, 64)}});
-        uint64_t dmode = *rc::gen::weightedElement<uint64_t>({{3, 0}, {1, 1}});
+        uint64_t dmode = *rc::gen::weightedElement<uint64_t>({{12, 0}, {4, 1}, {1, 2}, {1, 3}, {1, 4}, {1, 5}, {2, 6}, {1, 7}});
+        uint64_t lay = (uint64_t)*g::irange(0, 7) | ((uint64_t)*g::irange(0, 3) << 3);
         uint64_t dseed = *g::uni64();
         uint64_t nphase2 = *rc::gen::elementOf(std::vector<uint64_t>(PHASES, PHASES + 12));
         uint64_t nblock2 = *rc::gen::elementOf(std::vector<uint64_t>(BLOCKS, BLOCKS + 9));
         uint64_t warm = *rc::gen::weightedOneOf<uint64_t>({{3, rc::gen::just<uint64_t>(0)}, {1, g::range(1, 0xFFFF)}});
-        return std::vector<uint64_t>{(uint64_t)kind, (uint64_t)lm, (uint64_t)ln, (uint64_t)le, ncols, nphase, nblock, (uint64_t)dst, (uint64_t)buf, (uint64_t)nth, dmode, dseed, nphase2, nblock2, warm};
+        return std::vector<uint64_t>{(uint64_t)kind, (uint64_t)lm, (uint64_t)ln, (uint64_t)le, ncols, nphase, nblock, (uint64_t)dst, (uint64_t)buf, (uint64_t)nth, dmode, dseed, nphase2, nblock2, warm, lay};
     });
 }
 static rc::Gen<std::vector<uint64_t>> gen_history()
@@ -324,7 +365,7 @@ static std::vector<std::vector<uint64_t>> &enum_space(int kind)
                                         uint64_t seed = pbt::mix(ctr, lm * 1000 + ln * 10 + kind);
                                         uint64_t dmode = (ctr % 4 == 3) ? 1 : 0;
                                         sp.push_back({(uint64_t)kind, (uint64_t)lm, (uint64_t)lnn, (uint64_t)(ln < 0 ? 0 : ln + de), ncols, nphase, nblock, (uint64_t)dst, (uint64_t)buf, (uint64_t)nth, dmode, seed, PHASES[(ctr * 7) % 12], blocks[(ctr * 3) % blocks.size()],
-                                                      (ctr % 5 == 4) ? 1 + (seed & 0xFFFF) : 0});
+                                                      (ctr % 5 == 4) ? 1 + (seed & 0xFFFF) : 0, (seed >> 24) & 31});
                                         ctr++;
                                     }
                                 }
